@@ -188,6 +188,18 @@ CHECKS = {
         note='trusted base: kopfsim/rfc.py (RFC 7386/6902); hinted requests respect the hinted handler\'s operations (as the API '
              'server guarantees), see DESIGN 5/C18',
         design_ref='5/C18'),
+    'C19': dict(
+        technique='property-based testing: Hypothesis-generated closed-loop histories (object changes in several namespaces and of a '
+                  'cluster-scoped kind, namespaces and a CRD appearing/disappearing, stream breaks and in-stream faults at generated '
+                  'positions, bookmarks, 410 expiry, 429 on list/watch, server/client/inactivity timeouts, unknown events and ERRORs, a '
+                  'higher-priority peer appearing/vanishing, and the garbage-collection schedule); oracle = protocol, delivery, pause and '
+                  'coverage invariants over the API model\'s request and stream logs and the on.event invocations',
+        text='Every watch resumes from the version of the last event/bookmark its predecessor consumed or from the preceding list; a '
+             '410 is followed by a list; every listed object and every event delivered on a consumed stream is processed, and so is the '
+             'final version of every served object; an unknown ERROR ends that stream instead of business as usual; no list/watch and no '
+             'open stream of served resources while a higher-priority peer is known, and a list first afterwards; at every checkpoint '
+             'exactly the served (resource, namespace) pairs have an open stream, never two at once. Bounded exploration.',
+        design_ref='5/C19'),
 }
 
 REASON_TODO = 'no check is registered for it yet in this revision (planned; see DESIGN.md section 9)'
